@@ -4,9 +4,13 @@ package props
 
 import (
 	"bytes"
+	"encoding/json"
 	"math"
+	"os"
 	"strconv"
 	"strings"
+	"sync"
+	"time"
 
 	mxj "github.com/clbanning/mxj/v2"
 	"github.com/clbanning/mxj/v2/j2x"
@@ -98,6 +102,155 @@ func bystanders() {
 	byMap.UpdateValuesForPath("k:v:nosuchtype", "n.l")
 	byMap.NewMap("a:b:c")
 	byMap.ValuesForPath("n.l[x]")
+	bystandersRemote()
+}
+
+var bystanderFiles struct {
+	once      sync.Once
+	xml, json string
+}
+
+type bystanderStruct struct {
+	A int
+	B string
+}
+
+// bystandersRemote: the rest of the exported surface - lookups of the wrapper packages with attribute filters,
+// AnyXml over every kind of argument (also lists whose members fail half-way), the Maps file readers, updates whose
+// new value looks like an argument of something else, keypairs NewMap rejects, copies of Maps holding json.Number,
+// struct conversion of values that are no JSON objects, sub-key conditions and values full of characters XML escapes.
+func bystandersRemote() {
+	bystanderFiles.once.Do(func() {
+		dir := os.Getenv("VERIF_SCRATCH")
+		if dir == "" {
+			dir = os.TempDir()
+		}
+		if f, err := os.CreateTemp(dir, "bystander-*.xml"); err == nil {
+			f.WriteString("<a x=\"1\"> <b> t &amp; u </b> </a>\n<c>\u00a02\u00a0</c>\n")
+			f.Close()
+			bystanderFiles.xml = f.Name()
+		}
+		if f, err := os.CreateTemp(dir, "bystander-*.json"); err == nil {
+			f.WriteString(`{"a":{"b":[1,2.5,"x"]}} {"c":12345678901234567890}`)
+			f.Close()
+			bystanderFiles.json = f.Name()
+		}
+	})
+	const doc = `<a><b id="1" n="x &amp; y">x</b><b id="2">say "hi" &lt;now&gt;</b><c><d>1</d></c></a>`
+	x2jw.DocValue(doc, "a.b", "id:2")
+	x2jw.DocValue(doc, "a.b", "id:2", "n:x")
+	x2jw.DocValue(doc, "a.c.d")
+	x2jw.DocValue(doc, "a.nosuch", "id:1")
+	x2jw.DocValue(`<a><b id=`, "a.b", "id:1")
+	x2jw.ValuesFromTagPath(doc, "a.*", true)
+	x2jw.ValuesAtTagPath(doc, "a.b", true)
+	x2jw.ValuesForTag(doc, "d")
+	x2jw.PathsForTag(doc, "d")
+	x2jw.PathForTagShortest(doc, "id")
+	x2jw.ToJsonIndent(strings.NewReader(doc), true)
+	x2jw.XmlMsgsFromReaderAsJson(strings.NewReader(doc+doc), func(string) bool { return true }, func(error) bool { return true })
+	x2jw.XmlBufferToMap(bytes.NewBufferString(doc))
+	x2jw.NewAttributeMap("id:1", "bad")
+	x2jw.WriteMap(map[string]interface{}{"a": []interface{}{1, "x"}})
+	var st bystanderStruct
+	x2jw.Unmarshal([]byte(`<doc><A>1</A><B>x</B></doc>`), &st)
+	mxj.AnyXmlIndent(map[string]interface{}{"k": "a & b", "-id": "\"q\""}, "", "  ", "root")
+	mxj.AnyXml(map[string]interface{}{"k": "<"}, "root")
+	mxj.AnyXml([]interface{}{bystanderStruct{1, "&"}, "x", map[string]interface{}{"e": ""}}, "list", "item")
+	mxj.AnyXml([]interface{}{bystanderStruct{1, "x"}, map[string]interface{}{"-id": []interface{}{1}}, map[string]interface{}{"e": ""}})
+	mxj.AnyXmlIndent([]interface{}{bystanderStruct{1, "x"}, map[string]interface{}{"-id": []interface{}{1}}}, "", " ")
+	mxj.AnyXml(bystanderStruct{2, "y"})
+	mxj.AnyXml(nil)
+	mxj.AnyXml(1.5, "n")
+	mxj.AnyXmlIndent(func() {}, "", " ")
+	if bystanderFiles.xml != "" {
+		mxj.NewMapsFromXmlFile(bystanderFiles.xml)
+		mxj.NewMapsFromXmlFileRaw(bystanderFiles.xml)
+		mxj.NewMapsFromXmlFile(bystanderFiles.xml + ".nosuch")
+	}
+	if bystanderFiles.json != "" {
+		mxj.NewMapsFromJsonFile(bystanderFiles.json)
+		mxj.NewMapsFromJsonFileRaw(bystanderFiles.json)
+		mxj.NewMapsFromXmlFile(bystanderFiles.json)
+		mxj.NewMapsFromJsonFile(bystanderFiles.xml)
+	}
+	ms := mxj.Maps{mxj.Map{"a": map[string]interface{}{"-x": "1", "e": ""}}, mxj.Map{"b": "<&>"}}
+	ms.XmlString()
+	ms.XmlStringIndent("", " ")
+	ms.JsonString()
+	ms.JsonStringIndent("", " ", true)
+	up := mxj.Map{"n": map[string]interface{}{"l": []interface{}{map[string]interface{}{"k": "y", "url": "http://a.org/", "-a": "Tom & Jerry"}, "s"}, "t": "AT&T", "e": map[string]interface{}{}}}
+	for _, nv := range []interface{}{"|home|http://x/", ",a,b", ";k;v", "~k~v", "^k^v", "=k=v", ":k:v", "k:v:", "k::", "k:1:num", "k:true:bool", "*:1", map[string]interface{}{"k": "z"}, map[string]interface{}{}, mxj.Map{"k": 1}} {
+		up.UpdateValuesForPath(nv, "n.l")
+		up.UpdateValuesForPath(nv, "n.l", "k:y")
+		up.UpdateValuesForPath(nv, "n.nosuch")
+	}
+	for _, kp := range []string{"*", "*:x", "x:*", "n.*:m", "n.l[0]:m", ":", "a:", ":b", "n.t", "n.t:", "n.t:x.", "n.t:.x", "n.l:q", "n.e:q.r", "n.t:q.r.s"} {
+		up.NewMap(kp)
+		up.NewMap("n.l:q", kp)
+	}
+	up.NewMap("n.l:q", "n.t:q.k")
+	up.NewMap("n:q", "n.t:q.e.k")
+	for _, sk := range []string{"-a:Tom & Jerry", "-a:Tom &amp; Jerry", "url:http://a.org/", "!url:http://a.org/", "k:y:string", "k:*", "!k:*", "t:AT&T", "k:<", "k:\"", "nosuch:&lt;&amp;"} {
+		up.ValuesForKey("l", sk)
+		up.ValuesForPath("n.l", sk)
+		up.ValuesForPath("n", sk)
+		up.Exists("n.l", sk)
+		up.UpdateValuesForPath("k:y", "n.l", sk)
+	}
+	up.Json()
+	up.Json(true)
+	up.JsonIndent("", " ")
+	up.Xml()
+	up.XmlIndent("", " ")
+	for _, p := range []string{"n.e", "n.t", "n.l", "n.l[0]", "n.l[5]", "n.*", "nosuch", "", "n.", ".n"} {
+		up.Exists(p)
+		up.ValueForPath(p)
+		up.ValueForPathString(p)
+		up.PathsForKey(p)
+		up.PathForKeyShortest(p)
+	}
+	up.Copy()
+	cp, _ := up.Copy()
+	cp.RenameKey("n.t", "e")
+	cp.RenameKey("n.t", "u")
+	cp.SetValueForPath("v", "n.u")
+	cp.Remove("n.u")
+	cp.Remove("n.nosuch.deeper")
+	cp.SetValueForPath("v", "n.nosuch.deeper")
+	up.LeafPaths()
+	up.LeafValues()
+	up.Root()
+	up.Elements("n")
+	up.Attributes("n.l[0]")
+	nm := mxj.Map{"n": json.Number("12345678901234567890"), "l": []interface{}{json.Number("1"), map[string]interface{}{"f": json.Number("2.50")}}}
+	nm.Copy()
+	nm.Json()
+	nm.Xml()
+	(mxj.Map{"big": 1.7976931348623157e308, "small": 5e-324, "i": int64(1) << 62}).Copy()
+	mxj.NewMapStruct(time.Unix(0, 0))
+	mxj.NewMapStruct(bystanderStruct{1, "x"})
+	mxj.NewMapStruct(&bystanderStruct{1, "x"})
+	mxj.NewMapStruct(3)
+	mxj.NewMapStruct(nil)
+	mxj.NewMapStruct([]int{1})
+	(mxj.Map{"A": 1, "B": "x"}).Struct(&st)
+	(mxj.Map{"A": "notanint"}).Struct(&st)
+	(mxj.Map{"A": 1}).Struct(st)
+	sq, _ := mxj.NewMapXmlSeq([]byte(`<a x="1"><!--c--><b> t </b><?pi d?><b>"q" &amp; 'r'</b></a>`))
+	sq.Xml()
+	sq.XmlIndent("", " ")
+	sq.XmlWriter(&bytes.Buffer{})
+	mxj.NewMapXmlSeqReaderRaw(strings.NewReader("<a> 1 </a> <b/>"))
+	mxj.HandleJsonReader(strings.NewReader(`{"a":1}[`), func(mxj.Map) bool { return true }, func(error) bool { return false })
+	mxj.HandleJsonReaderRaw(strings.NewReader(`{"a":12345678901234567890}`), func(mxj.Map, []byte) bool { return true }, func(error, []byte) bool { return false })
+	j2x.JsonNewJson([]byte(`{"a":{"b":"<&>"}}`), "a.b:c")
+	j2x.JsonPathsForKey([]byte(`{"a":{"b":1}}`), "b")
+	j2x.JsonLeafPath([]byte(`{"a":{"b":[1,2]}}`))
+	j2x.JsonLeafValues([]byte(`{"a":{"b":[1,2]}}`))
+	x2j.XmlNewXml([]byte(`<a><b>x &amp; y</b></a>`), "a.b:c")
+	x2j.XmlUpdateValsForPath([]byte(`<a><b>x &amp;amp; y</b><c>1</c></a>`), "c:2", "a")
+	x2j.XmlLeafPath([]byte(`<a><b>1</b><b>2</b></a>`))
 }
 
 func (o Opts) apply() {
@@ -289,6 +442,7 @@ func genDecoderOpts(t *rapid.T, withCast bool) Opts {
 // under them with unchanged expectations. sel == 0 leaves everything at its default.
 func applyUnrelatedOptions(sel uint32) {
 	if sel == 0 {
+		bystanders()
 		return
 	}
 	bit := func(i uint) bool { return sel&(1<<i) != 0 }
